@@ -114,4 +114,87 @@ theorem escape_unescape (t : Str) (f : Nat) (hf : (escape t).length ≤ f) : une
       congr 1
       exact ih f (by omega)
 
+/-! ## attribute values (`format_attrs`) -/
+
+theorem escapeAttrChar_cases (c : Nat) :
+    (c = 10 ∧ escapeAttrChar c = s "&#xA;") ∨ (c = 13 ∧ escapeAttrChar c = s "&#xD;") ∨ (c = 9 ∧ escapeAttrChar c = s "&#x9;") ∨
+    (c ≠ 10 ∧ c ≠ 13 ∧ c ≠ 9 ∧ escapeAttrChar c = escapeChar c) := by
+  by_cases h10 : c = 10
+  · left; subst h10; exact ⟨rfl, rfl⟩
+  by_cases h13 : c = 13
+  · right; left; subst h13; exact ⟨rfl, rfl⟩
+  by_cases h9 : c = 9
+  · right; right; left; subst h9; exact ⟨rfl, rfl⟩
+  · right; right; right; exact ⟨h10, h13, h9, by simp [escapeAttrChar, h10, h13, h9]⟩
+
+theorem escapeChar_ctrl_free (c : Nat) (h10 : c ≠ 10) (h13 : c ≠ 13) (h9 : c ≠ 9) : ∀ x ∈ escapeChar c, x ≠ 10 ∧ x ≠ 13 ∧ x ≠ 9 := by
+  by_cases h34 : c = 34
+  · subst h34; decide
+  by_cases h38 : c = 38
+  · subst h38; decide
+  by_cases h39 : c = 39
+  · subst h39; decide
+  by_cases h60 : c = 60
+  · subst h60; decide
+  by_cases h62 : c = 62
+  · subst h62; decide
+  by_cases h1 : c = 0x2061
+  · subst h1; decide
+  by_cases h2 : c = 0x2062
+  · subst h2; decide
+  by_cases h3 : c = 0x2063
+  · subst h3; decide
+  by_cases h4 : c = 0x2064
+  · subst h4; decide
+  · have he : escapeChar c = [c] := by simp [escapeChar, h34, h38, h39, h60, h62, h1, h2, h3, h4]
+    intro x hx; rw [he] at hx; simp at hx; subst hx
+    exact ⟨h10, h13, h9⟩
+
+/-- an escaped attribute value contains no quote, no markup character and no literal line break or tab (which a reader
+would turn into a blank) -/
+theorem escapeAttr_safe (t : Str) : ∀ x ∈ escapeAttr t, x ≠ 60 ∧ x ≠ 62 ∧ x ≠ 34 ∧ x ≠ 39 ∧ x ≠ 10 ∧ x ≠ 13 ∧ x ≠ 9 := by
+  intro x hx
+  unfold escapeAttr at hx
+  rw [List.mem_flatMap] at hx
+  obtain ⟨c, _, hx⟩ := hx
+  rcases escapeAttrChar_cases c with ⟨_, h⟩ | ⟨_, h⟩ | ⟨_, h⟩ | ⟨h10, h13, h9, h⟩
+  · rw [h] at hx; revert x; decide
+  · rw [h] at hx; revert x; decide
+  · rw [h] at hx; revert x; decide
+  · rw [h] at hx
+    have hc := escapeChar_clean c x hx
+    have hk := escapeChar_ctrl_free c h10 h13 h9 x hx
+    exact ⟨hc.1, hc.2.1, hc.2.2.1, hc.2.2.2, hk.1, hk.2.1, hk.2.2⟩
+
+theorem unescape_escapeAttrChar (c : Nat) (rest : Str) (f : Nat) :
+    unescape (f + 1) (escapeAttrChar c ++ rest) = c :: unescape f rest := by
+  rcases escapeAttrChar_cases c with ⟨hc, h⟩ | ⟨hc, h⟩ | ⟨hc, h⟩ | ⟨_, _, _, h⟩
+  · rw [h, hc]; simp [s, unescape, readRef, refs, stripPrefix?]
+  · rw [h, hc]; simp [s, unescape, readRef, refs, stripPrefix?]
+  · rw [h, hc]; simp [s, unescape, readRef, refs, stripPrefix?]
+  · rw [h]; exact unescape_escapeChar c rest f
+
+theorem escapeAttrChar_length_pos (c : Nat) : 1 ≤ (escapeAttrChar c).length := by
+  rcases escapeAttrChar_cases c with ⟨_, h⟩ | ⟨_, h⟩ | ⟨_, h⟩ | ⟨_, _, _, h⟩
+  · rw [h]; decide
+  · rw [h]; decide
+  · rw [h]; decide
+  · rw [h]; exact escapeChar_length_pos c
+
+/-- **attribute values round-trip**, line breaks and tabs included -/
+theorem escapeAttr_unescape (t : Str) (f : Nat) (hf : (escapeAttr t).length ≤ f) : unescape f (escapeAttr t) = t := by
+  induction t generalizing f with
+  | nil => cases f <;> simp [escapeAttr, unescape]
+  | cons c cs ih =>
+    have he : escapeAttr (c :: cs) = escapeAttrChar c ++ escapeAttr cs := by simp [escapeAttr]
+    rw [he] at hf ⊢
+    have hp := escapeAttrChar_length_pos c
+    simp only [List.length_append] at hf
+    cases f with
+    | zero => omega
+    | succ f =>
+      rw [unescape_escapeAttrChar c (escapeAttr cs) f]
+      congr 1
+      exact ih f (by omega)
+
 end MC.Props.C02
